@@ -63,6 +63,13 @@ func (t *vC10Tr) Close() error { return nil }
 // a middleware's wrapper that was never taken off
 type vC10Wrap struct{ ResponseWriter }
 
+func vC10WBool(b bool) string {
+	if b {
+		return "true"
+	}
+	return "false"
+}
+
 func vC10WRLE(b []byte) string {
 	var sb strings.Builder
 	sb.WriteString("[")
@@ -107,6 +114,7 @@ func TestVerifC10Writer(t *testing.T) {
 		}
 		var ch *Chain
 		var ops, obs []string
+		var resets []map[string]any
 		kinds := map[string]int{}
 		nops := 4 + r.Intn(10)
 		qn := 0
@@ -143,6 +151,19 @@ func TestVerifC10Writer(t *testing.T) {
 					ch.ResetWire(tr, NewRequest(req))
 					kinds["ResetWire"]++
 				}
+				// every field the base writer keeps, right after the rebinding: the new
+				// transport's facts, nothing of the request served before
+				if base, ok := ch.Writer.(*responseWriter); ok {
+					ipb := 0
+					if ip4 := base.remoteip.To4(); ip4 != nil {
+						ipb = int(ip4[3])
+					}
+					view := fmt.Sprintf("(%d,%s,%d,%s,%s,%s,%s,%s)", base.rcode, vC10WBool(base.proto == "tcp"), ipb, vC10WBool(base.internal),
+						vC10WBool(base.Written()), vC10WBool(base.directPack), vC10WBool(base.msg != nil), vC10WBool(base.wire != nil))
+					resets = append(resets, map[string]any{"k": "writer-reset", "nontrivial": qn > 1,
+						"coq":  fmt.Sprintf("CaseWReset %d %s %d %s", tr.id, vC10WBool(tr.tcp), tr.id, view),
+						"desc": map[string]any{"transport": tr.id, "request_on_this_chain": qn, "view_rcode_tcp_ip_internal_written_direct_msg_wire": view}})
+				}
 				if r.Intn(2) == 0 {
 					ch.AllowDirectPack()
 				}
@@ -152,6 +173,10 @@ func TestVerifC10Writer(t *testing.T) {
 				m := new(dns.Msg)
 				m.SetReply(req)
 				m.Answer = []dns.RR{&dns.A{Hdr: dns.RR_Header{Name: req.Question[0].Name, Rrtype: dns.TypeA, Class: dns.ClassINET, Ttl: uint32(r.Intn(600))}, A: net.IPv4(10, 0, byte(r.Intn(256)), byte(r.Intn(256)))}}
+				if r.Intn(3) == 0 {
+					m.Rcode = []int{dns.RcodeNameError, dns.RcodeServerFailure, dns.RcodeRefused}[r.Intn(3)]
+					m.Answer = nil
+				}
 				want, _ := m.Pack()
 				before := len(sink)
 				if r.Intn(2) == 0 {
@@ -183,6 +208,11 @@ func TestVerifC10Writer(t *testing.T) {
 		}
 		b, _ := json.Marshal(line)
 		f.Write(append(b, '\n'))
+		// one line per case: the last rebinding (the longest history behind it)
+		if len(resets) > 0 {
+			b, _ := json.Marshal(resets[len(resets)-1])
+			f.Write(append(b, '\n'))
+		}
 	}
 
 	for cn := 0; cn < n/2; cn++ {
